@@ -20,3 +20,64 @@ func VerifHarness_C17_eightinveight_prime_order() {
 	v.Assert("prime-order-point-unchanged", Q.Equals(P))
 	v.Reach("end")
 }
+
+// ... and removes the small-order component of ANY point of the curve: for every coordinate
+// pair the constructor accepts (the model gives it an arbitrary group element of
+// Z_q x Z_8), the result has order dividing q and differs from the input by a point of
+// order dividing 8.
+func VerifHarness_C17_eightinveight_clears_torsion() {
+	ec := tss.Edwards()
+	q := ec.Params().N
+	x, y := v.NondetNat("x"), v.NondetNat("y")
+	P, err := NewECPoint(ec, x, y)
+	if err != nil {
+		v.Assert("refused-only-off-curve", !ec.IsOnCurve(x, y))
+		v.Reach("refused")
+		return
+	}
+	Q := P.EightInvEight()
+	qQ := Q.ScalarMult(q)
+	v.Assert("result-has-prime-order", qQ.X().Sign() == 0 && qQ.Y().Cmp(big.NewInt(1)) == 0)
+	eight := big.NewInt(8)
+	v.Assert("differs-by-small-order-point", Q.ScalarMult(eight).Equals(P.ScalarMult(eight)))
+	v.Reach("end")
+}
+
+// flattened coordinate lists: UnFlattenECPoints accepts exactly the lists whose pairs are
+// all on the curve, returns the points in order on the stated curve, and FlattenECPoints
+// gives the list back; odd lengths and nil are refused.
+func verifC17Flatten(which int) {
+	ec := tss.S256()
+	if which == 1 {
+		ec = tss.Edwards()
+	}
+	in := []*big.Int{v.NondetNat("x0"), v.NondetNat("y0"), v.NondetNat("x1"), v.NondetNat("y1")}
+	pts, err := UnFlattenECPoints(ec, in)
+	if err != nil {
+		v.Assert("refused-only-if-a-pair-is-off-curve", !(ec.IsOnCurve(in[0], in[1]) && ec.IsOnCurve(in[2], in[3])))
+		v.Reach("refused")
+		return
+	}
+	v.Assert("two-points", len(pts) == 2)
+	for i, p := range pts {
+		v.Assert("accepted-point-is-on-curve", ec.IsOnCurve(p.X(), p.Y()) && p.IsOnCurve())
+		v.Assert("point-keeps-its-coordinates-and-curve", v.EqInt(p.X(), in[2*i]) && v.EqInt(p.Y(), in[2*i+1]) && p.Curve() == ec)
+	}
+	back, err := FlattenECPoints(pts)
+	v.Assert("flatten-succeeds", err == nil && len(back) == 4)
+	if err == nil && len(back) == 4 {
+		ok := true
+		for i := range back {
+			ok = ok && v.EqInt(back[i], in[i])
+		}
+		v.Assert("flatten-inverts-unflatten", ok)
+	}
+	_, err = UnFlattenECPoints(ec, in[:3])
+	v.Assert("odd-length-refused", err != nil)
+	_, err = UnFlattenECPoints(ec, nil)
+	v.Assert("nil-refused", err != nil)
+	v.Reach("end")
+}
+
+func VerifHarness_C17_flatten_roundtrip_secp() { verifC17Flatten(0) }
+func VerifHarness_C17_flatten_roundtrip_ed()   { verifC17Flatten(1) }
